@@ -398,7 +398,7 @@ Proof.
       apply andb_prop in Hok. destruct Hok as [Hok H3]. apply andb_prop in Hok. destruct Hok as [H1 H2].
       destruct (nth_error (ps_kinds p) (Z.to_nat pl)) as [[|e|e]|] eqn:Ek; try discriminate.
       destruct (remote_progress _ w d p gs pl f v e HQS ltac:(lia) Ek ltac:(lia) ltac:(lia))
-        as (p' & gs' & E & HQ' & q & hist & low & q' & Eq & Eg & -> & Hqs' & F' & P' & Hc' & HL' & Hsv').
+        as (p' & gs' & E & HQ' & q & hist & low & q' & Eq & Eg & -> & Hqs' & F' & P' & Hc' & HL' & Hsv' & _).
       cbn [sstep]. rewrite E. cbn [res_bind].
       exists (mksr p' out0 AOk), (updz gs (Z.to_nat pl) (hist ++ [v], low)). split; [reflexivity|]. cbn [sr_state]. split; [exact HQ'|].
       destruct HSX as [X1 X2 X3 X4 X5]. constructor; rewrite ?Hsv', ?Hc', ?HL', ?Hqs'; try assumption.
